@@ -57,7 +57,7 @@ theorem C16_no_shared_mutable_state :
 
 /-- arguments are only read: stores go through receivers and output parameters only -/
 theorem C16_arguments_read_only :
-    Gen.paramStores = Tie.expectedParamStores ∧ Gen.copyCalls = Tie.expectedCopyCalls :=
+    Tie.storesOK Gen.paramStores Gen.copyCalls = true :=
   Tie.stores_are_the_modelled_ones
 
 /-- one `picobuf.Unmarshal(data, &m)` of thread-private message `m` on the SHARED input `data`, run
